@@ -2,7 +2,7 @@ SPECIFICATION Spec
 CONSTANTS
   Alpha = {1,2,3,4,5,6,7,8,9,10,11,12,13,14,15,16,17,18,19,20,21}
   MaxLen = 4
-  KA = {1,2,3}
+  KA = {1,3}
   KB = {1}
   Comments = {TRUE,FALSE}
   Numeric = {TRUE}
